@@ -118,7 +118,7 @@ def is_T(x):
 
 
 def is_S(x):
-    return isinstance(x, tuple) and len(x) == 5 and x[0] == 'S'
+    return isinstance(x, tuple) and len(x) == 4 and x[0] == 'S'
 
 
 def is_P(x):
@@ -127,8 +127,10 @@ def is_P(x):
 
 class Grader:
     """Besides graded trees a value can be
-       ('S', level, (vnA, gA), (vnB, gB))   the sum/difference of two homogeneous values of different grade, and
-       ('P', level, {(vn, g), ..}, gcross)    the square of such a sum with the listed pure squares still to be removed:
+       ('S', level, ((vn, g), ..), where)       a formal sum of homogeneous values of different grades, and
+       ('P', level, {(vn, g), ..}, (g, ..))     the square of a two-term sum: the listed pure squares A^2, B^2 are still
+                                               to be removed; the other grades (the cross term 2AB and whatever else
+                                               was added or subtracted meanwhile) must agree in the end.
     (A + B)^2 - A^2 - B^2 = 2AB is the usual way to get a product from squarings.  A pure square is removed only by
     subtracting the value that IS the square of that very summand (value numbers, not grades), so the cancellation is
     exact."""
@@ -168,11 +170,17 @@ class Grader:
         if t in (U, OKPT) or t is None:
             return U
         if is_S(t):
-            return ('T', 'terms of different grade %s and %s are added/subtracted at %s and the result is used as an operand' % (self.D.show(t[2][1]), self.D.show(t[3][1]), t[4]))
+            return ('T', 'terms of different grades %s are added/subtracted at %s and the result is used as an operand' % (sorted(self.D.show(g) for _, g in t[2]), t[3]))
         if is_P(t):
             if t[2]:
                 return ('T', 'the square of a sum of terms of different grade is used before its pure squares (grades %s) were subtracted' % sorted(self.D.show(g) for _, g in t[2]))
-            return t[3]
+            res = None
+            for g in t[3]:
+                m = g if res is None else self.D.merge(res, g)
+                if m is None:
+                    return ('T', 'after removing the pure squares the remaining terms have different grades %s' % sorted(self.D.show(x) for x in t[3]))
+                res = m
+            return res if res is not None else Z
         if shape == 'Fp':
             if isinstance(t, list):
                 return U
@@ -271,9 +279,27 @@ class Grader:
     # ---- value numbers
     def vn_place(self, st, pl):
         vn = st.get('#vn', {})
-        projs = tuple((p.get('f', p.get('cidx', '?')) if isinstance(p, dict) else p) for p in pl['p'] if p != 'deref')
+        projs = self._projs(st, pl)
+        if projs and (pl['l'], projs) in vn:
+            return vn[(pl['l'], projs)]
         base = vn.get(pl['l'], ('local', pl['l']))
         return base if not projs else ('proj', base, projs)
+
+    def _projs(self, st, pl):
+        out = []
+        for p in pl['p']:
+            if p == 'deref':
+                continue
+            if isinstance(p, dict) and 'f' in p:
+                out.append(('f', p['f']))
+            elif isinstance(p, dict) and 'cidx' in p:
+                out.append(('i', p['cidx']))
+            elif isinstance(p, dict) and 'idx' in p:
+                c = st.get('#const', {}).get(p['idx'])
+                out.append(('i', c) if c is not None else ('?', p['idx']))
+            else:
+                out.append(('?', repr(p)))
+        return tuple(out)
 
     def vn_operand(self, st, op):
         if op['k'] in ('copy', 'move'):
@@ -283,10 +309,13 @@ class Grader:
 
     def set_vn(self, st, pl, v):
         vn = dict(st.get('#vn', {}))
-        if [p for p in pl['p'] if p != 'deref']:
-            vn[pl['l']] = ('partial', id(v), pl['l'])
+        projs = self._projs(st, pl)
+        if projs:
+            vn[(pl['l'], projs)] = v
         else:
             vn[pl['l']] = v
+            for k_ in [k_ for k_ in vn if isinstance(k_, tuple) and len(k_) == 2 and k_[0] == pl['l'] and isinstance(k_[1], tuple)]:
+                del vn[k_]
         st['#vn'] = vn
 
     # ---- places
@@ -306,7 +335,10 @@ class Grader:
                 else:
                     return t if is_T(t) else U
             elif isinstance(p, dict) and 'idx' in p:
-                if isinstance(t, list) and t:
+                ci = st.get('#const', {}).get(p['idx'])
+                if isinstance(t, list) and ci is not None and ci < len(t):
+                    t = t[ci]
+                elif isinstance(t, list) and t:
                     acc = None
                     for x in t:
                         acc = self.join(acc, x)
@@ -333,6 +365,8 @@ class Grader:
         def put(t, ps):
             p = ps[0]
             i = p.get('f', p.get('cidx')) if isinstance(p, dict) else None
+            if i is None and isinstance(p, dict) and 'idx' in p:
+                i = st.get('#const', {}).get(p['idx'])
             if i is None or not isinstance(t, list) or i >= len(t):
                 return U
             t = list(t)
@@ -385,6 +419,8 @@ class Grader:
                 return self.mkz(dsh)
             if ln in self.point_fns:
                 return OKPT
+            if ln == 'to_affine_point':
+                return [self.mk(dsh[1], D.vec(*([0] * D.n))) for _ in range(3)]     # (x, y, 1): no scaling freedom left
             return U
         lv = callee_level(name)
         if lv is None and ln in ('eq', 'ne', 'u256_cmp') and len(args) == 2:
@@ -411,30 +447,63 @@ class Grader:
         if ln == 'fp_sqr' and len(args) == 1:
             self.sq_of[('call', b)] = vns[0]
             if is_S(args[0]):
-                _, slv, (va, ga), (vb, gb), _w = args[0]
-                return ('P', slv, frozenset([(va, D.scale(ga, 2)), (vb, D.scale(gb, 2))]), D.add(ga, gb))
-        if ln == 'fp_sub' and len(args) == 2 and is_P(args[0]) and not is_P(args[1]) and not is_S(args[1]):
-            root = self.sq_of.get(vns[1])
-            gb = self.grade(lv, args[1])
-            hit = [(v, g) for (v, g) in args[0][2] if v == root and root is not None]
-            if hit and not is_T(gb) and gb not in (U, Z) and all(x == y or '*' in (x, y) for x, y in zip(hit[0][1], gb)):
-                return ('P', args[0][1], args[0][2] - {hit[0]}, args[0][3])
+                terms = args[0][2]
+                if len(terms) == 2:
+                    (va, ga), (vb, gb) = terms
+                    return ('P', args[0][1], frozenset([(va, D.scale(ga, 2)), (vb, D.scale(gb, 2))]), (D.add(ga, gb),))
+        if ln in ('fp_neg', 'fp_double', 'fp_triple', 'fp_div2') and len(args) == 1 and (is_S(args[0]) or is_P(args[0])):
+            # a scaled sum: its terms are no longer the very values whose squares could cancel
+            v = args[0]
+            if is_S(v):
+                return ('S', v[1], tuple((None, g) for _, g in v[2]), v[3])
+            return ('P', v[1], frozenset((None, g) for _, g in v[2]), v[3])
         if ln in SAME and len(args) == 2:
-            ga, gb = self.grade(lv, args[0]), self.grade(lv, args[1])
-            for g in (ga, gb):
-                if is_T(g) or g == U:
-                    return self.from_grade(lv, g)
-            if ga == Z:
-                return self.from_grade(lv, gb)
-            if gb == Z:
-                return self.from_grade(lv, ga)
-            m = D.merge(ga, gb)
-            if m is None:
-                # kept as an explicit sum: legitimate only as the operand of a squaring whose pure squares are removed
-                self.sum_sites = getattr(self, 'sum_sites', [])
-                self.sum_sites.append((b, ln, ga, gb))
-                return ('S', lv, (vns[0], ga), (vns[1], gb), self.where(b))
-            return self.mk(lv, m)
+            def terms_of(v, vn):
+                if is_S(v):
+                    return list(v[2])
+                if is_P(v):
+                    return None
+                g = self.grade(lv, v)
+                if g == Z:
+                    return []
+                if g == U or is_T(g):
+                    return g
+                return [(vn, g)]
+            pa, pb = is_P(args[0]), is_P(args[1])
+            if pa != pb:
+                pv = args[0] if pa else args[1]
+                other = terms_of(args[1] if pa else args[0], vns[1] if pa else vns[0])
+                if isinstance(other, list):
+                    pures = set(pv[2])
+                    extra = list(pv[3])
+                    for vn_, g_ in other:
+                        root = self.sq_of.get(vn_) if vn_ is not None else None
+                        hit = [x for x in pures if ln == 'fp_sub' and root is not None and x[0] == root and D.merge(x[1], g_) is not None]
+                        if hit:
+                            pures.discard(hit[0])
+                        else:
+                            extra.append(g_)
+                    if not pures:
+                        gg = self.grade(lv, ('P', pv[1], frozenset(), tuple(extra)))
+                        return gg if is_T(gg) else self.from_grade(lv, gg)
+                    return ('P', pv[1], frozenset(pures), tuple(extra))
+                return other
+            if pa and pb:
+                return ('T', 'two squares of mixed sums are combined at %s (not supported by the grading)' % self.where(b))
+            ta, tb = terms_of(args[0], vns[0]), terms_of(args[1], vns[1])
+            for tt in (ta, tb):
+                if not isinstance(tt, list):
+                    return self.from_grade(lv, tt) if not is_T(tt) else tt
+            terms = ta + tb
+            if not terms:
+                return self.mkz(lv)
+            res = terms[0][1]
+            for _, g_ in terms[1:]:
+                res = D.merge(res, g_) if res is not None else None
+            if res is not None:
+                return self.mk(lv, res)
+            # kept as an explicit sum: legitimate only as the operand of a squaring whose pure squares are removed
+            return ('S', lv, tuple(terms), self.where(b))
         if ln in OPS:
             nargs, f = OPS[ln]
             lvs = [lv, ARG2.get(ln, lv)]
@@ -460,6 +529,7 @@ class Grader:
         rounds = 0
         ret_vals = []
         sites = []
+        self.final_states = []
 
         def key(st):
             return repr(sorted((str(k), repr(v)) for k, v in st.items() if k != '#vn')) + repr(sorted((st.get('#vn') or {}).items(), key=repr))
@@ -479,6 +549,21 @@ class Grader:
                         v = self.rvalue(st, s['rv'], b, dty)
                         self.write(st, lhs, v)
                         rv = s['rv']
+                        if not lhs['p']:
+                            cs = dict(st.get('#const', {}))
+                            cv = None
+                            if rv['k'] == 'use' and rv['op']['k'] == 'const' and rv['op']['c'].get('k') == 'int':
+                                try:
+                                    cv = int(rv['op']['c']['bits'])
+                                except Exception:
+                                    cv = None
+                            elif rv['k'] == 'use' and rv['op']['k'] in ('copy', 'move') and not rv['op']['pl']['p']:
+                                cv = cs.get(rv['op']['pl']['l'])
+                            if cv is not None:
+                                cs[lhs['l']] = cv
+                            else:
+                                cs.pop(lhs['l'], None)
+                            st['#const'] = cs
                         if rv['k'] == 'use' and rv['op']['k'] in ('copy', 'move'):
                             self.set_vn(st, lhs, self.vn_place(st, rv['op']['pl']))
                         elif rv['k'] == 'ref':
@@ -496,6 +581,7 @@ class Grader:
                         sites.append(((b, -1), v))
                 if t['k'] == 'return':
                     ret_vals.append(st.get(0))
+                    self.final_states.append(st)
                 for s2 in fn.succ(b):
                     st_out = st
                     if (b, s2) in getattr(self, 'fixed_edges', {}):
@@ -514,9 +600,9 @@ class Grader:
                         old = IN[s2][-1]
                         new = dict(old)
                         for kk in set(old) | set(st_out):
-                            if kk == '#vn':
-                                a_, b_ = old.get('#vn', {}), st_out.get('#vn', {})
-                                new['#vn'] = {l_: a_[l_] for l_ in a_ if l_ in b_ and a_[l_] == b_[l_]}
+                            if kk in ('#vn', '#const'):
+                                a_, b_ = old.get(kk, {}), st_out.get(kk, {})
+                                new[kk] = {l_: a_[l_] for l_ in a_ if l_ in b_ and a_[l_] == b_[l_]}
                             else:
                                 new[kk] = self.join(old.get(kk), st_out.get(kk))
                         if key(new) == key(old):
@@ -766,3 +852,154 @@ def a_curve(cx, rule, which, floor):
             else:
                 cx.hold(rule, inst, '%s: %d result/comparison site(s) are weighted-homogeneous: (X, Y, Z) scale as (m^2, m^3, m); both sides of comparisons have equal weight' % (fn.short, checked), fn.loc())
     cx.floor(rule, 'curve-functions', n, floor, 'Jacobian formula functions graded')
+
+
+# ---------------------------------------------------------------------------------------------------------------------
+# pairing line functions: each returns the new Jacobian point T and writes the three Fp2 coefficients of the line through
+# lw.  The point must again scale as (m^2, m^3, m); the three coefficients may be multiplied by a common factor of the
+# subfield (the final exponentiation removes it), so they must all have the SAME weight with respect to each operand.
+
+def point_tree_defects(g, csh, tree):
+    D = g.D
+    out = []
+    if is_T(tree):
+        return [tree[1]], False
+    if tree == OKPT:
+        return [], True
+    if not isinstance(tree, list) or len(tree) != 3:
+        return [], False
+    gx, gy, gz = [g.grade(csh, x) for x in tree]
+    for nm, gg in (('X', gx), ('Y', gy), ('Z', gz)):
+        if is_T(gg):
+            out.append('coordinate %s: %s' % (nm, gg[1]))
+    if out:
+        return out, True
+    if all(x in (Z, U) for x in (gx, gy, gz)):
+        return [], False
+    for d in (0, 1):
+        def val(gg):
+            return None if gg in (Z, U) or gg[d] == '*' else gg[d]
+        x_, y_, z_ = val(gx), val(gy), val(gz)
+        if z_ is not None:
+            if x_ is not None and x_ != 2 * z_:
+                out.append('X has weight %d but Z has weight %d with respect to operand %d (X must scale as Z^2)' % (x_, z_, d + 1))
+            if y_ is not None and y_ != 3 * z_:
+                out.append('Y has weight %d but Z has weight %d with respect to operand %d (Y must scale as Z^3)' % (y_, z_, d + 1))
+        elif x_ is not None and y_ is not None and 3 * x_ != 2 * y_:
+            out.append('X has weight %d and Y has weight %d with respect to operand %d (they must be 2m and 3m)' % (x_, y_, d + 1))
+    return out, True
+
+
+LINE_FNS = ['gm_sm9::points::sm9_u256_eval_g_line_no_pre', 'gm_sm9::points::sm9_u256_eval_g_line', 'gm_sm9::points::sm9_u256_eval_g_tangent']
+
+
+def a_lines(cx, rule):
+    F = cx.F
+    D = CURVE
+    pre_grades = None     # grades of pre[0..5] with respect to the second twist operand, taken from the function that computes them itself
+    n = 0
+    for name in LINE_FNS:
+        fn = cx.fn(name, rule)
+        if fn is None:
+            continue
+        g = Grader(F, fn, D, point_fns=ALL_POINT_FN_NAMES)
+        init = {}
+        npt = 0
+        lw_l = pre_l = None
+        for i in range(1, fn.arg_count + 1):
+            sh = shape_of_ty(fn.local_ty(i))
+            nm = fn.local_name(i)
+            if isinstance(sh, tuple) and sh[0] == 'pt' and sh[1] == 'Fp2' and npt < 2:
+                vecs = []
+                for wgt in (2, 3, 1):
+                    v = [0, 0, 0]
+                    v[npt] = wgt
+                    vecs.append(g.mk('Fp2', D.vec(*v)))
+                init[i] = vecs
+                npt += 1
+            elif isinstance(sh, tuple) and sh[0] == 'pt':
+                init[i] = [g.mk(sh[1], D.vec(0, 0, 0)) for _ in range(3)]      # the affine G1 argument: no scaling freedom
+            elif isinstance(sh, tuple) and sh[0] == 'arr' and nm == 'lw':
+                init[i] = g.mkz(sh)
+                lw_l = i
+            elif isinstance(sh, tuple) and sh[0] == 'arr' and nm == 'pre':
+                pre_l = i
+                init[i] = [g.mk('Fp2', x) if x not in (Z, U) else x for x in pre_grades] if pre_grades else U
+            else:
+                init[i] = U
+        g.fixed_edges = {}
+        if pre_l is not None:
+            # contract of the precomputed array: pre[0] is the square of the y coordinate of the second twist operand
+            # (checked at the producer below)
+            tw = [i for i in range(1, fn.arg_count + 1) if isinstance(shape_of_ty(fn.local_ty(i)), tuple) and shape_of_ty(fn.local_ty(i)) == ('pt', 'Fp2')]
+            if len(tw) == 2:
+                g.sq_of[('proj', ('local', pre_l), (('i', 0),))] = ('proj', ('local', tw[1]), (('f', 1),))
+        g.run(init)
+        n += 1
+        bad = []
+        checked = 0
+        for (b, i), tree in g.ret_sites:
+            d_, ok = point_tree_defects(g, 'Fp2', tree)
+            bad += [(b, x) for x in d_]
+            checked += ok
+        # the coefficients written through lw
+        lws = []
+        for st in g.final_states:
+            t = st.get(lw_l)
+            if isinstance(t, list) and len(t) == 3:
+                gs = [g.grade('Fp2', x) for x in t]
+                lws.append(gs)
+        for gs in lws:
+            for k_, gg in enumerate(gs):
+                if is_T(gg):
+                    bad.append((0, 'lw[%d]: %s' % (k_, gg[1])))
+            known = [gg for gg in gs if not (gg in (Z, U) or is_T(gg))]
+            if len(known) == 3:
+                checked += 1
+                for d in (0, 1):
+                    vals = {gg[d] for gg in known if gg[d] != '*'}
+                    if len(vals) > 1:
+                        bad.append((0, 'the three line coefficients have different weights %s with respect to operand %d (they may only share a common factor)' % (sorted(vals), d + 1)))
+        # the precomputed array of the no_pre variant defines what eval_g_line may assume about `pre`
+        if name.endswith('no_pre'):
+            ls = [i for i, l in enumerate(fn.locals) if l.get('name') == 'pre']
+            if ls and g.final_states:
+                t = g.final_states[0].get(ls[0])
+                if isinstance(t, list) and len(t) == 5:
+                    pre_grades = [g.grade('Fp2', x) for x in t]
+        if bad:
+            cx.violate(rule, fn.short, '%s is not weighted-homogeneous: %s' % (fn.short, bad[0][1]), G.where(fn, bad[0][0]) if bad[0][0] else fn.loc(), {'all': [x[1] for x in bad][:8]})
+        elif checked < 2:
+            cx.lost(rule, fn.short, 'the point and the line coefficients of %s could not both be graded' % fn.short, fn.loc())
+        else:
+            cx.hold(rule, fn.short, '%s: the returned point scales as (m^2, m^3, m) and the three line coefficients share one weight with respect to each twist operand' % fn.short, fn.loc())
+    # the producer of `pre` in the Miller loop must give it the grades the line function was graded with
+    pf = cx.fn('gm_sm9::points::sm9_u256_pairing', rule)
+    if pf is not None and pre_grades:
+        g = Grader(F, pf, D, point_fns=ALL_POINT_FN_NAMES + ('sm9_u256_eval_g_line_no_pre', 'sm9_u256_eval_g_line', 'sm9_u256_eval_g_tangent', 'point_pi1', 'point_neg_pi2'))
+        init = {}
+        for i in range(1, pf.arg_count + 1):
+            sh = shape_of_ty(pf.local_ty(i))
+            if isinstance(sh, tuple) and sh[0] == 'pt' and sh[1] == 'Fp2':
+                init[i] = [g.mk('Fp2', D.vec(0, w, 0)) for w in (2, 3, 1)]     # Q plays the role of the second operand of the line function
+            else:
+                init[i] = U
+        g.point_affine = True
+        g.run(init, cap=4)
+        ls = [i for i, l in enumerate(pf.locals) if l.get('name') == 'pre']
+        got = None
+        for st in g.final_states:
+            t = st.get(ls[0]) if ls else None
+            if isinstance(t, list) and len(t) == 5:
+                got = [g.grade('Fp2', x) for x in t]
+        def dim1(v):
+            return [None if (x in (Z, U) or is_T(x)) else x[1] for x in v]
+        sq_ok = False
+        for st in g.final_states:
+            v0 = (st.get('#vn') or {}).get((ls[0], (('i', 0),))) if ls else None
+            sq_ok = sq_ok or (v0 is not None and g.sq_of.get(v0) == ('proj', ('local', 1), (('f', 1),)))
+        cx.add(rule, 'pairing/pre0', sq_ok, 'pre[0] handed to the chord-line function is the square of Q.y (the line function cancels it against (y + z)^2)', pf.loc())
+        ok = got is not None and dim1(got) == dim1(pre_grades) and None not in dim1(got)
+        cx.add(rule, 'pairing/pre', ok, 'the Miller loop precomputes pre[0..5] with weights %s in the coordinates of Q; the chord-line function is graded with %s' % (dim1(got) if got else None, dim1(pre_grades)), pf.loc())
+        n += 1
+    cx.floor(rule, 'line-functions', n, 4, 'pairing line functions graded')
